@@ -266,7 +266,7 @@ void HttpMessage::readHeaders()
 		if (isspace(line[0])) // multiline
 		{
 			headerValue += line.trimmed(); // keep it: the value may continue on further lines
-			setHeader(headerName, headerValue);
+			_headers[capitalized(headerName)] = headerValue; // not setHeader(): a fold of white space only after an empty value ("Host:" CRLF SP CRLF) must not remove the header
 			continue;
 		}
 		line.trim();
